@@ -54,6 +54,13 @@ func (packet *Packet) ReadFrom(ctx context.Context, reader io.Reader, timeout ti
 
 	totalBytes += n
 
+	if packet.Header.Length < PacketHeaderSize {
+		// The length includes the header. A smaller value would wrap
+		// around in the size of the body and the read loop below could
+		// never reach it.
+		return totalBytes, fmt.Errorf("invalid packet length in header: %d", packet.Header.Length)
+	}
+
 	packet.Data = make([]byte, packet.Header.Length-PacketHeaderSize)
 
 	// The timeout will be refreshed (replaced) on every successful
